@@ -38,6 +38,7 @@ func init() {
 			{Name: "import-drops-versionless", File: "extractor/filesystem/sbom/cdx/cdx.go", Old: "	pkg.Metadata = m\n	if m.PURL == nil && len(m.CPEs) == 0 {", New: "	pkg.Metadata = m\n	if pkg.Version == \"\" {\n		return nil\n	}\n	if m.PURL == nil && len(m.CPEs) == 0 {", Rule: "D4-omissions", Site: "convertComponentToInventory"},
 			{Name: "sbom-topurl-rewrites", File: "extractor/filesystem/sbom/cdx/cdx.go", Old: "func (e Extractor) ToPURL(p *extractor.Package) *purl.PackageURL {\n	return p.Metadata.(*Metadata).PURL", New: "func (e Extractor) ToPURL(p *extractor.Package) *purl.PackageURL {\n	return &purl.PackageURL{Type: p.Metadata.(*Metadata).PURL.Type, Name: p.Name, Version: p.Version}", Rule: "D3-reference", Site: "cdx"},
 		},
+		Neutral: c15Neutral,
 	})
 }
 
@@ -51,8 +52,8 @@ var c15Sanctioned = map[string][]string{
 		// a package whose extractor produces no package URL cannot be referenced from SPDX
 		"converter.ToPURL(param0.Inventory.Packages[(φ:int+1:int)]) == nil:*github.com/google/osv-scalibr/purl.PackageURL",
 		// SPDX requires a name and a version; both are the package URL's, and so is the test
-		"\"\":string == converter.ToPURL(param0.Inventory.Packages[(φ:int+1:int)]).Name",
-		"\"\":string == converter.ToPURL(param0.Inventory.Packages[(φ:int+1:int)]).Version",
+		"builtin.len(converter.ToPURL(param0.Inventory.Packages[(φ:int+1:int)]).Name) == 0",
+		"builtin.len(converter.ToPURL(param0.Inventory.Packages[(φ:int+1:int)]).Version) == 0",
 	},
 	// ToCDX exports every package
 	"converter.ToCDX": {"builtin.len(param0.Inventory.Packages) <= (φ:int+1:int)"},
@@ -60,14 +61,14 @@ var c15Sanctioned = map[string][]string{
 	// (the PURL == nil half of the conjunction is not a skip edge by itself: CPE-only entries are kept)
 	"extractor/filesystem/sbom/spdx.Extractor.convertSpdxDocToPackage": {
 		"builtin.len(param1.Packages) <= (φ:int+1:int)",
-		"0:int == builtin.len(local:*extractor.Package.Metadata.(*spdx.Metadata).CPEs)",
+		"builtin.len(local:*extractor.Package.Metadata.(*spdx.Metadata).CPEs) == 0 && local:*extractor.Package.Metadata.(*spdx.Metadata).PURL == nil:*github.com/google/osv-scalibr/purl.PackageURL",
 	},
 	"extractor/filesystem/sbom/cdx.enumerateComponents": {
 		"builtin.len(param0) <= (φ:int+1:int)",
 		"extractor/filesystem/sbom/cdx.convertComponentToInventory(‹param0[(φ:int+1:int)]›) == nil:*github.com/google/osv-scalibr/extractor.Package",
 	},
 	"extractor/filesystem/sbom/cdx.convertComponentToInventory": {
-		"0:int == builtin.len(local:*extractor.Package.Metadata.(*cdx.Metadata).CPEs)",
+		"builtin.len(local:*extractor.Package.Metadata.(*cdx.Metadata).CPEs) == 0 && local:*extractor.Package.Metadata.(*cdx.Metadata).PURL == nil:*github.com/google/osv-scalibr/purl.PackageURL",
 	},
 	// an absent document / component list has nothing to import
 	"extractor/filesystem/sbom/cdx.Extractor.convertCdxBomToPackage": {
@@ -767,7 +768,11 @@ func fnSkips(fn *ssa.Function, progress func(ssa.Instruction) bool) []string {
 		if c0 == c1 {
 			continue
 		}
-		out = append(out, renderCondV(ifi.Cond, !c0))
+		k := 0
+		if c0 {
+			k = 1
+		}
+		out = append(out, renderSkipDecision(b, k))
 	}
 	sort.Strings(out)
 	return out
